@@ -12,7 +12,9 @@ import math
 import numpy as np
 from numpy import linalg as LA
 
-from mc import core
+import contextlib
+
+from mc import core, clock
 from mc.core import fail
 
 PID = "C13"
@@ -141,10 +143,13 @@ def run_case(case):
     key = {"strategy": strat.split("_")[0]}
     sa, eo, lm, op, ref, seen, nrm = _make(strat, kind, norm)
     log = []
+    vt = None
     oe, orf = sa.evaluate_operation, sa.refine
 
     def ev_wrap():
         r = oe()
+        if vt is not None:
+            vt.advance(1.0)          # one unit of virtual time per completed evaluation
         bens = [o.benefit for o in _objects(sa) if getattr(o, "benefit", None) is not None]
         errs = [o.error for o in _objects(sa) if getattr(o, "error", None) is not None]
         log.append(("E", r[0], len(seen - set(EP)), np.array(op.get_result(), dtype=float).copy(),
@@ -155,9 +160,13 @@ def run_case(case):
         log.append(("R",))
         return orf()
     sa.evaluate_operation, sa.refine = ev_wrap, rf_wrap
-    R = sa.performSpatiallyAdaptiv(lm[0], lm[1], eo, tol=tol, max_evaluations=mx, min_evaluations=mn, print_output=False,
-                                   recalculate_frequently=strat.endswith("_recalc"),
-                                   evaluation_points=EP if strat.endswith("_ep") else None)
+    mt = c.get("max_time")
+    kw = {} if mt is None else {"max_time": mt}
+    with (clock.virtual_clock() if c.get("clock") == "virtual" else contextlib.nullcontext()) as vclock:
+        vt = vclock
+        R = sa.performSpatiallyAdaptiv(lm[0], lm[1], eo, tol=tol, max_evaluations=mx, min_evaluations=mn, print_output=False,
+                                       recalculate_frequently=strat.endswith("_recalc"),
+                                       evaluation_points=EP if strat.endswith("_ep") else None, **kw)
     evs = [x for x in log if x[0] == "E"]
     pts, errs, surplus = list(R[6]), list(R[5]), list(R[7])
     fails = []
@@ -174,12 +183,14 @@ def run_case(case):
     # reference model of the loop: stop at the first k with (err<=tol and n>=min) or (max is not None and n>max)
     stop = None
     for k, (e, p) in enumerate(zip(errs, pts)):
-        if (e <= tol and p >= mn) or (mx is not None and p > mx):
+        # time budget (virtual clock: k+1 units have elapsed after evaluation k; real clock: only budgets no run can exhaust)
+        timed_out = mt is not None and c.get("clock") == "virtual" and (k + 1) > mt
+        if (e <= tol and p >= mn) or (mx is not None and p > mx) or timed_out:
             stop = k
             break
     if stop != len(evs) - 1:
-        fails.append(fail("stop_index", "model stops at evaluation %r, run performed %d evaluations; errors %r points %r tol %r min %r max %r"
-                          % (stop, len(evs), errs, pts, tol, mn, mx), key))
+        fails.append(fail("stop_index", "model stops at evaluation %r, run performed %d evaluations; errors %r points %r tol %r min %r max %r max_time %r (%s clock)"
+                          % (stop, len(evs), errs, pts, tol, mn, mx, mt, c.get("clock", "real")), dict(key, time_budget=mt is not None)))
     seq = "".join(x[0] for x in log)
     if seq != "E" + "RE" * (len(evs) - 1):
         fails.append(fail("evaluate_refine_sequence", "sequence %s" % seq, key))
@@ -200,7 +211,7 @@ def run_case(case):
         fails.append(fail("returned_result", "returned %r, result at the last evaluation %r" % (R[3], evs[-1][3]), key))
     if sa.refinements < 0 or len([x for x in log if x[0] == "R"]) != len(evs) - 1:
         fails.append(fail("refine_count", "%d refine calls for %d evaluations" % (len([x for x in log if x[0] == 'R']), len(evs)), key))
-    return {"failures": fails, "canon": (strat, kind, norm, tol, mn, mx), "outcome": (len(evs), tuple(pts)),
+    return {"failures": fails, "canon": (strat, kind, norm, tol, mn, mx, mt, c.get("clock")), "outcome": (len(evs), tuple(pts)),
             "nontrivial": len(evs) > 1, "evals": len(evs), "pts": pts}
 
 
@@ -233,6 +244,20 @@ def main(ctx):
             else:
                 mx_eff = mx
             cases.append({"config": dict(c0, tol=tol, min_evaluations=mn, max_evaluations=mx_eff)})
+    # time budgets: a budget no run can exhaust on the real clock (must change nothing), and - on a virtual clock owned by the explorer,
+    # one unit per evaluation - every budget that expires after evaluation 0, 1, 2, 3 combined with the other limits
+    ntime = 0
+    for bc, res in zip(base, results0):
+        nk = res.get("pts") or []
+        c0 = bc["config"]
+        if len(nk) < 3 or c0["norm"] != "inf" or c0["integrand"] not in ("peak", "vec"):
+            continue
+        cases.append({"config": dict(c0, tol=1e-3, max_evaluations=nk[min(3, len(nk) - 1)], max_time=1.0e9)})
+        ntime += 1
+        for mt in (0.5, 1.5, 2.5, 3.5, 1.0e9):
+            for tol, mx in ((-1, nk[-1]), (1e-1, nk[min(2, len(nk) - 1)]), (1e10, None)):
+                cases.append({"config": dict(c0, tol=tol, max_evaluations=mx, max_time=mt, clock="virtual")})
+                ntime += 1
     # two-phase runs: every (first limits) x (continuation limits) pair from small menus, incl. continuation tolerances 0 and -1
     ncont = 0
     for bc, res in zip(base, results0):
@@ -260,8 +285,8 @@ def main(ctx):
                                         % (st, nm, other.get("pts"), r.get("pts")), {"strategy": st.split("_")[0]}),
                                    {"config": {"strategy": st, "integrand": "peak_tiny", "norm": nm, "tol": -1, "min_evaluations": 1,
                                                "max_evaluations": 90 if q else 150}})
-    ctx.bounds = {"strategies": strategies, "integrands": kinds, "norms": norms, "limit_cases": len(cases) - ncont, "baselines": len(base),
-                  "two_phase_cases": ncont}
+    ctx.bounds = {"strategies": strategies, "integrands": kinds, "norms": norms, "limit_cases": len(cases) - ncont - ntime, "baselines": len(base),
+                  "two_phase_cases": ncont, "time_budget_cases": ntime}
     return ctx.finish(
         rule="one case = one complete adaptive run on the real loop with the library's own estimator; the lattice is strategy x "
              "integrand x norm x tol{-1,0,1e-3,1e-1,1e10} x min_evaluations{0,1,n0,n0+1,n2} x max_evaluations{None,0,n0-1,n0,n1,n3} "
@@ -269,4 +294,4 @@ def main(ctx):
              "distinct = distinct limit configuration; non-trivial = run with at least one refinement",
         assumptions=["d=2, lmin/lmax = (1,2) (cell: (2,2)); reference solutions from the library's analytic integrals (checked by C12)",
                      "the library's len^(1/norm) normalisation of the error norm is accepted as 'the chosen norm'",
-                     "max_time is not explored (real clock)"])
+                     "max_time: the clock read by the driver is a seam owned by the explorer (mc/clock.py; perf_counter and time() with different epochs as on a real machine, one unit per evaluation); on the real clock only a budget of 1e9 s is used"])
